@@ -23,8 +23,10 @@ def get (k : κ) : List (κ × α) → Option α
 /-- `HashMap::remove` (all entries with that key) -/
 def erase (k : κ) (l : List (κ × α)) : List (κ × α) := l.filter (fun p => decide (p.1 ≠ k))
 
-/-- `HashMap::insert` / assignment through `get_mut` -/
-def set (k : κ) (v : α) (l : List (κ × α)) : List (κ × α) := (k, v) :: erase k l
+/-- `HashMap::insert` / assignment through `get_mut`
+    (always equal to `(k, v) :: erase k l`, lemma `AL.set_eq`; the test only avoids a copy) -/
+def set (k : κ) (v : α) (l : List (κ × α)) : List (κ × α) :=
+  if (get k l).isSome then (k, v) :: erase k l else (k, v) :: l
 
 def contains (k : κ) (l : List (κ × α)) : Bool := (get k l).isSome
 
